@@ -1237,3 +1237,162 @@ func scribbleInputs(m map[uint]<-chan int) {
 	}
 	m[424242] = nil
 }
+
+// scenarioSaturated (C05): buffered inputs that are never empty - every input has many writers
+// blocked on it, and a receive from a full channel takes the next blocked writer's value into the
+// buffer in the same step - and a consumer that waits until all handlers are occupied, looks at
+// what each priority holds, releases a random group and repeats, tens of thousands of times.
+// With no release outstanding every priority holds exactly its share (computed here with the
+// library divider on the sorted priorities).  Small input capacities (1, 2) are included: a
+// discipline that reads a buffered input "patiently" through a select with a ticker instead of
+// draining it can give up early and hand the remainder to another priority.
+func (b *bb) scenarioSaturated() {
+	before := b.fails()
+	r := b.r
+	prios := [][]uint{{3, 2, 1}, {7, 2}, {5, 4, 3, 1}}[r.Intn(3)]
+	H := uint(len(prios) * (1 + r.Intn(3)))
+	fair := r.Intn(2) == 0
+	dv := divider.Rate
+	if fair {
+		dv = divider.Fair
+	}
+	if !utils.IsNonFatalConfig(prios, dv, H) {
+		fair, dv = true, divider.Fair
+	}
+	share := map[uint]uint{}
+	dv(prios, H, share)
+	rounds := 40000
+	if b.thorough {
+		rounds = 400000
+	}
+	inputs := map[uint]<-chan int{}
+	chans := map[uint]chan int{}
+	caps := map[uint]int{}
+	for _, p := range prios {
+		caps[p] = []int{1, 1, 2, 5}[r.Intn(4)]
+		ch := make(chan int, caps[p])
+		chans[p], inputs[p] = ch, ch
+	}
+	stop := make(chan struct{})
+	var writers sync.WaitGroup
+	for _, p := range prios {
+		var perInput sync.WaitGroup
+		for k := 0; k < 32; k++ {
+			writers.Add(1)
+			perInput.Add(1)
+			go func(p uint) {
+				defer writers.Done()
+				defer perInput.Done()
+				for {
+					select {
+					case chans[p] <- 1:
+					case <-stop:
+						return
+					}
+				}
+			}(p)
+		}
+		go func(p uint) { perInput.Wait(); close(chans[p]) }(p)
+	}
+	// the discipline is created only when every input is full and has writers blocked on it:
+	// from its very first round on, data is waiting continuously on every input
+	for _, p := range prios {
+		for deadline := time.Now().Add(5 * time.Second); len(chans[p]) < cap(chans[p]) && time.Now().Before(deadline); {
+			time.Sleep(50 * time.Microsecond)
+		}
+	}
+	time.Sleep(3 * time.Millisecond)
+	dsc, err := p2.New(p2.Opts[int]{Divider: dv, HandlersQuantity: H, Inputs: inputs})
+	if err != nil {
+		b.fail("C18 configuration judged non-fatal was rejected by New: %v (prios=%v H=%d)", err, prios, H)
+		close(stop)
+		writers.Wait()
+		return
+	}
+	// releases are issued from another goroutine: the discipline may be busy writing to its
+	// output, which this goroutine has to keep reading
+	relCh := make(chan uint, 4*int(H))
+	relDone := make(chan struct{})
+	go func() {
+		defer close(relDone)
+		for p := range relCh {
+			dsc.Release(p)
+		}
+	}()
+	held := map[uint]uint{}
+	total := uint(0)
+	violations := 0
+	first := ""
+	ok := true
+	recvUntilFull := func() bool {
+		for total < H {
+			select {
+			case it, open := <-dsc.Output():
+				if !open {
+					return false
+				}
+				held[it.Priority]++
+				total++
+			case <-time.After(10 * time.Second):
+				b.fail("C06 saturated: with every input full only %d of %d handlers were occupied after 10s (prios=%v caps=%v fair=%v)", total, H, prios, caps, fair)
+				return false
+			}
+		}
+		return true
+	}
+	for i := 0; i < rounds && ok; i++ {
+		if ok = recvUntilFull(); !ok {
+			break
+		}
+		// all handlers occupied, no release outstanding
+		for _, p := range prios {
+			if held[p] != share[p] {
+				violations++
+				if first == "" {
+					first = fmt.Sprintf("round %d: priority %d holds %d, its share is %d (in flight %v, shares %v)", i, p, held[p], share[p], held, share)
+				}
+				break
+			}
+		}
+		// release a random group
+		k := 1 + r.Intn(int(H))
+		for j := 0; j < k; j++ {
+			p := prios[r.Intn(len(prios))]
+			if held[p] == 0 {
+				continue
+			}
+			held[p]--
+			total--
+			relCh <- p
+		}
+	}
+	if violations >= 2 {
+		b.fail("C05 saturated: with every input kept full and no release outstanding a priority did not hold its share in %d of %d rounds; first: %s (prios=%v H=%d caps=%v fair=%v)", violations, rounds, first, prios, H, caps, fair)
+	}
+	// wind down: the writers stop, the inputs are closed, everything is released
+	close(stop)
+	done := make(chan struct{})
+	go func() {
+		go func() {
+			for p, n := range held {
+				for ; n > 0; n-- {
+					relCh <- p
+				}
+			}
+		}()
+		for it := range dsc.Output() {
+			relCh <- it.Priority
+		}
+		close(relCh)
+		<-relDone
+		close(done)
+	}()
+	select {
+	case <-done:
+	case <-time.After(20 * time.Second):
+		b.fail("C07 saturated: no termination within 20s after the inputs were closed and everything released (prios=%v H=%d)", prios, H)
+	}
+	writers.Wait()
+	b.leakProbe("normal termination of v2 priority (saturated)")
+	b.note("saturated", fmt.Sprintf("prios=%v H=%d caps=%v fair=%v rounds=%d", prios, H, caps, fair, rounds), before)
+}
